@@ -351,8 +351,64 @@ func checkC02(w *World, r *Report) {
 		fmt.Sprintf("writers: %v", schedW))
 
 	// R6 / R8 from the typestate engine
+	r.Rule("C02.R8", "the worker loop re-reads the status before every batch (a stopped process gets no further batch)", 1)
+	checkLoopStatus(w, r, "C02.R8")
 	lta := w.runLTA()
 	lta.export(r, "C02.R6", []string{"delivery-concurrent-with-worker", "inbox-started-after-cleanup"}, "no delivery on the spawning goroutine once the inbox is open; no inbox restart after cleanup")
+}
+
+// checkLoopStatus: the worker loop re-reads the status word before every batch and leaves when
+// the inbox was stopped (by the batch it just processed): shared by C02, C04, C07.
+func checkLoopStatus(w *World, r *Report, rule string) {
+	ir := w.findInboxRoles()
+	if roleProblems(r, rule, ir) {
+		return
+	}
+	g := w.FG(ir.loop)
+	key := fname(ir.loop) + ":status-before-every-batch"
+	what := "the worker loop loads the status before each Processer.Invoke and exits when it is 'stopped'"
+	// edges on which the freshly loaded status is known to differ from 'stopped'
+	var loads []bool = make([]bool, len(g.ins))
+	alive, _ := g.CondEdges(func(v ssa.Value) (bool, bool) {
+		b, ok := v.(*ssa.BinOp)
+		if !ok {
+			return false, false
+		}
+		for _, pair := range [][2]ssa.Value{{b.X, b.Y}, {b.Y, b.X}} {
+			if c, ok := pair[0].(*ssa.Call); ok && constStr(pair[1]) == ir.stopped {
+				for _, op := range ir.ops {
+					if op.call == c && op.kind == "Load" {
+						loads[op.node] = true
+						switch b.Op {
+						case token.NEQ:
+							return true, true
+						case token.EQL:
+							return false, true
+						}
+					}
+				}
+			}
+		}
+		return false, false
+	})
+	inv := w.Nodes(g, Ev{Name: "inv", M: w.evInvokeBatch().M, Shallow: true}, false)
+	ok := len(alive) > 0 && anyOf(inv)
+	detail := "no status load compared with 'stopped' guards the batch hand-off"
+	for _, v := range members(inv) {
+		if !g.OnlyVia(alive, v) {
+			ok = false
+			detail = "a batch can be handed over without the not-stopped edge of a status load"
+		}
+		// between two hand-offs the status must be loaded again
+		reach := g.reach(g.succ[v], loads, nil)
+		for _, v2 := range members(inv) {
+			if reach[v2] {
+				ok = false
+				detail = "a second batch can be handed to the process without re-reading the status: after a poison pill (or the exhausted restart budget) stopped the actor in one batch, the next batch is still delivered - user messages after Stopped, a second cleanup"
+			}
+		}
+	}
+	r.Check(ok, rule, key, what, w.fnPos(ir.loop), detail)
 }
 
 // ---------------------------------------------------------------------------
